@@ -96,6 +96,28 @@ def oob_scenario(viol, stats):
         pr.destroy()
 
 
+def two_spellings_scenario(viol, stats):
+    """One target asked for by two invocations through two spellings (a symlinked directory and the real one; `..`
+    after a symlink): the lock is the database row's id, so both must queue on one lock — one execution at a time."""
+    import os as _os
+    for sp1, sp2 in (("real/x", "link/x"), ("link/x", "real/../real/x")):
+        pr = Project()
+        try:
+            _os.makedirs(pr.path("real"))
+            _os.symlink("real", pr.path("link"))
+            pr.write("real/x.do", 'echo "B $$ x $(date +%s%N)" >>"$VERIF_WORK"; sleep 0.8; echo "E $$ x $(date +%s%N)" >>"$VERIF_WORK"\necho x\n')
+            rs = sched.run_cmds(pr, [["redo", sp1], ["redo", sp2]], timeout=30, stagger=0.3)
+            stats["runs"] += 1
+            over, counts = sched.target_overlaps(sched.parse_work(pr.path(".verif-work")))
+            if over or any(r.rc != 0 or r.timed_out for r in rs):
+                p = write_replay("C06", "two-spellings", dict(kind="impl-monitor", commands=["redo " + sp1, "(0.3 s later) redo " + sp2], tree="real/, link -> real, real/x.do",
+                                                              overlaps=over, executions=counts, rcs=[r.rc for r in rs], stderr=[r.err[-600:] for r in rs]))
+                viol.append(Violation("C06", p, "`redo %s` beside `redo %s` (one file): overlapping executions %r, exit statuses %r" % (sp1, sp2, over, [r.rc for r in rs])))
+                return
+        finally:
+            pr.destroy()
+
+
 def run(ctx):
     rng = random.Random(ctx["seed"] * 19 + 6)
     viol = ctx.setdefault("violations", [])
@@ -170,6 +192,8 @@ def run(ctx):
                     break
         finally:
             pr.destroy()
+    if not viol:
+        two_spellings_scenario(viol, stats)
     if not viol:
         abandon_scenario(viol, known_hit, stats)
     if not viol:
